@@ -601,7 +601,7 @@ fn main() {
     let release = Engine { cache: cache_root.path().join("release"), name: "release", exe: self_exe.clone(), prefix: vec![], env: vec![], slow: 1 };
     let asan_exe = root.join(".build/asan/x86_64-unknown-linux-gnu/release/c31");
     let asan_env = vec![
-        ("ASAN_OPTIONS".to_string(), "detect_leaks=1:halt_on_error=1:exitcode=97:abort_on_error=0:symbolize=1:leak_check_at_exit=0:allocator_may_return_null=1:handle_abort=1".to_string()),
+        ("ASAN_OPTIONS".to_string(), "detect_leaks=1:halt_on_error=1:exitcode=97:abort_on_error=0:symbolize=1:leak_check_at_exit=0:allocator_may_return_null=1:handle_abort=1:detect_stack_use_after_return=0".to_string()),
         ("LSAN_OPTIONS".to_string(), "exitcode=0:print_suppressions=0".to_string()),
         ("ASAN_SYMBOLIZER_PATH".to_string(), "/usr/bin/llvm-symbolizer".to_string()),
     ];
@@ -709,7 +709,7 @@ fn main() {
     }
 
     // ---- memcheck (thorough tier) -----------------------------------------------------
-    if !run.quick() {
+    if !run.quick() || std::env::var("VERIF_C31_MEMCHECK").is_ok() {
         let vg = Path::new("/usr/bin/valgrind");
         if vg.exists() {
             let memcheck = Engine {
@@ -723,7 +723,7 @@ fn main() {
             let mut d = Vec::new();
             let o = run_engine(&memcheck, "directed", gen::DIRECTED.len(), 1, run.seed);
             d.push(fold(&mut run, &memcheck, "directed", o, false));
-            let o = run_engine(&memcheck, "main", 64, 2, run.seed ^ 0x5A5A);
+            let o = run_engine(&memcheck, "main", run.tier.pick(8, 64), 2, run.seed ^ 0x5A5A);
             d.push(fold(&mut run, &memcheck, "main", o, false));
             run.engine("memcheck", true, json!({"runs": d}));
         } else {
